@@ -5,8 +5,8 @@ import (
 
 	"github.com/jackc/pgx/v4"
 
-	obscollator "github.com/shutter-network/rolling-shutter/rolling-shutter/chainobserver/db/collator"
 	chainobsdb "github.com/shutter-network/rolling-shutter/rolling-shutter/chainobserver/db"
+	obscollator "github.com/shutter-network/rolling-shutter/rolling-shutter/chainobserver/db/collator"
 	obskeyper "github.com/shutter-network/rolling-shutter/rolling-shutter/chainobserver/db/keyper"
 	obssync "github.com/shutter-network/rolling-shutter/rolling-shutter/chainobserver/db/sync"
 	primevdb "github.com/shutter-network/rolling-shutter/rolling-shutter/keyperimpl/primev/database"
